@@ -27,6 +27,11 @@ deriving DecidableEq, Repr, Inhabited
 structure State where
   dbs : NMap Db
   mem : Int                   -- server.memUsed
+  /-- connInfo.tcpClients: registered connection id ↦ selected database (id 0 stands for the nil
+      connection entry that embedded SELECT / HELLO create) -/
+  conns : NMap Nat := []
+  /-- connInfo.embedded.Database -/
+  embDb : Nat := 0
 deriving DecidableEq, Repr, Inhabited
 
 /-- per-request context: ctx.Value("Database"), the server clock reading, configuration -/
@@ -34,6 +39,8 @@ structure Ctx where
   db : Nat
   now : Int                   -- unix milliseconds
   cfg : Cfg := {}
+  /-- the caller: `none` = embedded API, `some id` = registered connection -/
+  conn : Option Nat := none
   /-- resolution of Go map iteration order where a handler's effect depends on it (permutation index) -/
   order : Nat := 0
   /-- resolution of math/rand picks: the members named by the observed reply -/
@@ -67,8 +74,8 @@ def deleteKey (s : State) (db : Nat) (k : Bytes) : State :=
   let d := s.db db
   let e : Entry := (d.store.get k).getD ⟨.nil, none⟩
   let d' : Db := ⟨d.store.del k, d.vol.filter (· != k)⟩
-  { dbs := if s.hasDb db then s.dbs.put db d' else s.dbs,
-    mem := s.mem - e.getMem - keyMem k }
+  { s with dbs := if s.hasDb db then s.dbs.put db d' else s.dbs,
+           mem := s.mem - e.getMem - keyMem k }
 
 def Entry.expired (e : Entry) (now : Int) : Bool :=
   match e.exp with
@@ -100,8 +107,8 @@ def setOne (db : Nat) (s : State) (kv : Bytes × Val) : State :=
     | some e => e.exp
     | none => none
   let e : Entry := ⟨kv.2, exp⟩
-  { dbs := s.dbs.put db ⟨d.store.put kv.1 e, d.vol⟩,
-    mem := s.mem + e.getMem + keyMem kv.1 }
+  { s with dbs := s.dbs.put db ⟨d.store.put kv.1 e, d.vol⟩,
+           mem := s.mem + e.getMem + keyMem kv.1 }
 
 /-- setValues :200. `false` = "max memory reached, key value not set". -/
 def setValues (c : Ctx) (s : State) (es : List (Bytes × Val)) : State × Bool :=
@@ -150,6 +157,19 @@ def tagOid (s : State) (db : Nat) (k : Bytes) (o : Nat) : State :=
 def newOid (s : State) : Nat :=
   1 + (s.dbs.foldl (fun m (_, d) => d.store.foldl (fun m (_, e) => max m e.val.oid) m) 0)
 
+/-- SetConnectionInfo (sugardb/modules.go:77) as SELECT uses it: the caller's tcpClients entry (id 0 = the
+    nil-connection entry for the embedded caller) is pointed at `database`, created if absent -/
+def setConnDb (c : Ctx) (s : State) (database : Nat) : State :=
+  let s := s.createDb database
+  { s with conns := s.conns.put (c.conn.getD 0) database }
+
+/-- SwapDBs (sugardb/keyspace.go:40): both databases are created if absent; every TCP connection on one is
+    re-pointed at the other; the embedded caller's database is not touched -/
+def swapDbs (s : State) (d1 d2 : Nat) : State :=
+  if d1 == d2 then s else
+  let s := (s.createDb d1).createDb d2
+  { s with conns := s.conns.map fun (id, d) => (id, if d == d1 then d2 else if d == d2 then d1 else d) }
+
 def flushAll (s : State) : State :=
   { s with dbs := s.dbs.map fun (i, d) => (i, (⟨[], d.vol.map fun _ => []⟩ : Db)) }
 
@@ -166,6 +186,8 @@ inductive Prim where
   | mutObj (k : Bytes) (v : Val)
   | newOid
   | tagOid (k : Bytes) (o : Nat)
+  | setConnDb (database : Nat)
+  | swapDbs (d1 d2 : Nat)
 deriving Repr
 
 def Prim.Res : Prim → Type
@@ -179,6 +201,8 @@ def Prim.Res : Prim → Type
   | .mutObj _ _ => Unit
   | .newOid => Nat
   | .tagOid _ _ => Unit
+  | .setConnDb _ => Unit
+  | .swapDbs _ _ => Unit
 
 /-- one primitive, executed atomically under the store lock; `none` = Go runtime panic -/
 def Prim.exec (c : Ctx) (s : State) : (p : Prim) → Option (State × p.Res)
@@ -193,6 +217,8 @@ def Prim.exec (c : Ctx) (s : State) : (p : Prim) → Option (State × p.Res)
   | .mutObj k v => some (Sugar.mutObj s c.db k v, ())
   | .newOid => some (s, Sugar.newOid s)
   | .tagOid k o => some (Sugar.tagOid s c.db k o, ())
+  | .setConnDb d => some (Sugar.setConnDb c s d, ())
+  | .swapDbs d1 d2 => some (Sugar.swapDbs s d1 d2, ())
 
 inductive Prog (α : Type) where
   | ret (a : α)
